@@ -1,7 +1,8 @@
-import Driver.Util
-/- Sub-protocol `C02`: not built yet. -/
+import Driver.C01
+/- Sub-protocol `C02`: the Z80 reference model behind a recording bus — the protocol of `C01`
+(the C02 harness speaks it; see Driver/C01.lean for the wire format). -/
 namespace Driver.C02
 
-def proto : Driver.Proto := { σ := Unit, init := (), handle := fun s _ => (s, "unimplemented") }
+def proto : Driver.Proto := Driver.C01.proto
 
 end Driver.C02
